@@ -8,7 +8,7 @@
    [app_after a] is the application-side bookkeeping of Spec/DrainSpec.v after the trace prefix [a]:
    a_objs = requests handed out whose objects are not all gone, a_goaway = the peer's GOAWAY has arrived,
    a_wait = request streams opened by the peer and not yet taken by accept(). *)
-From H3V Require Import Base.Bytes Spec.GoawaySpec Spec.DrainSpec Model.Goaway Model.Ongoing
+From H3V Require Import Base.Bytes Spec.GoawaySpec Spec.DrainSpec Model.Goaway Model.Ongoing Model.GoawayWrite
   Proofs.DrainProofs.
 
 (* T1 safety: accept() answers "no more requests" only when no request it handed out has a live handle *)
@@ -23,7 +23,8 @@ Proof. intros h Hn. exact (proj1 (model_drain_safe_live h Hn)). Qed.
 Theorem C09_never_pending_once_drained :
   forall h, NoDup (arrivals h) ->
     forall a b, dtrace h = a ++ DO EPending :: b ->
-      ~ (a_goaway (app_after a) = true /\ a_objs (app_after a) = [] /\ a_wait (app_after a) = []).
+      ~ (a_goaway (app_after a) = true /\ a_objs (app_after a) = [] /\ a_wait (app_after a) = [] /\
+         a_blocked (app_after a) = false).
 Proof. intros h Hn. exact (proj1 (proj2 (model_drain_safe_live h Hn))). Qed.
 
 (* T3 errors only when justified: accept() reports connection error c only if the inputs so far justify it - a
@@ -46,6 +47,18 @@ Theorem C09_drained_poll_answers_none :
                     (pre = [] \/ exists g, pre = [EWire g]) /\
                     (ans = ENone \/ exists c, ans = EErr c).
 Proof. exact drained_poll_answers. Qed.
+
+(* the model with a blockable control stream (Model/GoawayWrite.v) is the model above while the stream is writable
+   no accept() is suspended on its closing GOAWAY and the transport has not failed; blocked / failed-transport histories are covered by the run and the monitor only *)
+Theorem C09_unblocked_is_base_model :
+  forall b o, bw_blocked b = false -> bw_parked b = None -> bw_lost b = false ->
+    bstep b (BOp o) =
+      (fst (dstep (bw_w b) o), {| bw_w := snd (dstep (bw_w b) o); bw_blocked := false; bw_parked := None; bw_lost := false |}).
+Proof.
+  intros b o Hb Hp Hl. unfold bstep, notice_loss. rewrite Hp, Hb, Hl.
+  assert (E : match o with DPoll => bw_w b | _ => bw_w b end = bw_w b) by (destruct o; reflexivity).
+  rewrite E. destruct (dstep (bw_w b) o) as [outs w']. reflexivity.
+Qed.
 
 (* the same two clauses as the one-pass monitor run on the traces of the real implementation *)
 Theorem C09_monitor_accepts_model :
@@ -92,6 +105,7 @@ Print Assumptions C09_none_only_when_all_ended.
 Print Assumptions C09_never_pending_once_drained.
 Print Assumptions C09_errors_only_when_justified.
 Print Assumptions C09_drained_poll_answers_none.
+Print Assumptions C09_unblocked_is_base_model.
 Print Assumptions C09_monitor_accepts_model.
 Print Assumptions C09_monitor_sound.
 Print Assumptions C09_monitor_complete.
